@@ -228,7 +228,13 @@ def gen_c05(r, knobs=None):
                     # transient error while a stored file is opened for reading (the result may be loaded from storage)
                     b.req(cid, name, diskerr={'k': r.randint(0, 2), 'errno': r.choice(['EMFILE', 'EIO']), 'read': True})
                 else:
-                    b.req(cid, name, diskerr={'k': r.randint(0, 8 * min(n_up, 3)), 'errno': r.choice(['ENOSPC', 'EIO', 'EACCES'])})
+                    de = {'k': r.randint(0, 8 * min(n_up, 3)), 'errno': r.choice(['ENOSPC', 'EIO', 'EACCES'])}
+                    if r.random() < 0.5:
+                        # when operation k opens a file for writing, the open succeeds and a WRITE fails after that many units
+                        # (disk full / I/O error in the middle of the file: a short write, then the error)
+                        de['wlimit'] = r.choice([0, 0, 1, 9, 60, 400, 5000])
+                        de['errno'] = r.choice(['ENOSPC', 'EIO'])
+                    b.req(cid, name, diskerr=de)
                 b.req(cid, name)        # the error was transient: the same request has to recover
                 b.op(op='insp', cid=cid, kind='has_data')
                 break
